@@ -103,6 +103,7 @@ def execPipe (w : PipeWorld) (op : String) (a : List String) : PipeWorld × Stri
       ({ w with proxies := w.proxies.set! i { p with st := st' } }, "ok")
     | _, _ => (w, "bad-op")
   | "end" => (w, "ok")
+  | "tick" => (w, "ok")            -- time passes for the sweep of the transport table: entries live an hour, nothing expires
   | "branches" => (w, "skip")
   | "rawd" => (w, "skip")          -- hostile-input stream: oracles only (no panic, bounded allocation)
   | "raw" =>
